@@ -72,6 +72,10 @@ FLOORS = {"quick": {"evaluations": 1300, "distinct_nontrivial": 1100,
                                     "rank_deficient_or_zero": 3000, "einsum_repeated_index": 1500, "einsum_ellipsis": 1000,
                                     "tensordot_negative_left_axis": 400},
                        "sets": {"einsum_specs": 2400}, "max_skipped_fraction": 0.25}}
+# sibling facet (vf/mon/siblings.py): ~45 % of the smallest count of the five quick seeds on the unchanged tree; thorough =
+# quick floor x (thorough / quick stream size) x 0.6.  A run in which the facet never executed is INCONCLUSIVE.
+FLOORS["quick"]["counters"].update({"siblings_built": 590, "siblings_computed_together": 83, "siblings_with_different_values": 190})
+FLOORS["thorough"]["counters"].update({"siblings_built": 5600, "siblings_computed_together": 780, "siblings_with_different_values": 1800})
 EXHAUSTIVE_SPACE = ("all chunkings of (3,2)x(2,3) under tensordot axes=1 and axes=([0,1],[1,0]); all 32 row chunkings of a "
                     "(6,2) matrix and all 32 column chunkings of a (2,6) matrix under qr and svd")
 CLAIM = ("Every generated tensor product was computed by the real dask.array and compared with NumPy (shape, dtype, values "
